@@ -329,13 +329,13 @@ int _GD_Include(DIRFILE *D, struct parser_state *p, const char *ename,
   D->fragment[me].parent = parent;
   D->fragment[me].dirfd = dirfd;
   D->fragment[me].encoding = p->flags & GD_ENCODING;
-  D->fragment[me].byte_sex =
+  D->fragment[me].byte_sex = (
 #ifdef WORDS_BIGENDIAN
     (p->flags & GD_LITTLE_ENDIAN) ? GD_LITTLE_ENDIAN : GD_BIG_ENDIAN
 #else
     (p->flags & GD_BIG_ENDIAN) ? GD_BIG_ENDIAN : GD_LITTLE_ENDIAN
 #endif
-    ;
+    ) | (p->flags & GD_ARM_FLAG);
   D->fragment[me].ref_name = NULL;
   D->fragment[me].frame_offset = D->fragment[parent].frame_offset;
   /* like the other directives with fragment scope, /PROTECT is inherited from
